@@ -580,7 +580,8 @@ def wire_pdus(rng, comp, exhaustive_bits=8, samples=12, cap=600, cap_all=False, 
         m = s.mask
         if isinstance(s.dop, D.DtcDop):
             # every described trouble code (own, DTC-REF, inherited through LINKED-DTC-DOPS), whatever the width of the coded type
-            return sorted({c for c, _ in D.effective_dtcs(s.dop) if 0 <= c < (1 << s.n)})
+            # (the coded values of the described trouble codes: the code itself, or its LINEAR pre-image)
+            return sorted({x for x in (D.dtc_coded_of_code(s.dop, c) for c, _ in D.effective_dtcs(s.dop)) if x is not None and 0 <= x < (1 << s.n)})
         if s.n <= exhaustive_bits:
             return [r for r in range(1 << s.n) if r & ~m == 0]
         out = {0, 1, m, m >> 1, (m >> 1) + 1, 1 << (s.n - 1), (1 << s.n) - 1 & m}
